@@ -185,3 +185,20 @@ def case_expand_rank():
 
 
 CASES["expand_rank"] = case_expand_rank
+
+
+def case_nondeterministic():
+    import onnxscript.optimizer
+    c = numpy_helper.from_array(np.zeros((4,), dtype=np.float32), "c")
+    g = helper.make_graph([helper.make_node("RandomUniformLike", ["c"], ["y"])], "g", [], [vi("y", TensorProto.FLOAT, [4])], [c])
+    m = helper.make_model(g, opset_imports=[helper.make_opsetid("", 18)], ir_version=9)
+    opt = onnxscript.optimizer.optimize(m)
+    ops = [n.op_type for n in opt.graph.node]
+    if "RandomUniformLike" not in ops:
+        print(f"RandomUniformLike(constant) was evaluated at optimisation time: nodes after optimize = {ops}, initializers = {[i.name for i in opt.graph.initializer]}; "
+              "the original model draws fresh values on every run, the optimized one returns one frozen sample")
+        return 1
+    return 0
+
+
+CASES["nondeterministic"] = case_nondeterministic
